@@ -19,6 +19,8 @@ STATE = {}
 LOG = []
 
 CLS = [None, DEFAULT_MARKER, False, True, 0, 2, '', 'a<']
+CLS_S = [None, DEFAULT_MARKER, '', 'a<', 'plain']
+CLS_T = [DEFAULT_MARKER, '', 'a<', 'plain']
 KIND_N = {'cls': len(CLS), 'len': 4, 'lenN': 5, 'int': 4, 'cls_nd': len(CLS)}
 
 
@@ -55,6 +57,18 @@ def pick(table, idx):
 
 
 _R5 = [0, 1, 2, 3, 4]
+
+
+def make_T(log):
+    """recording translation function whose return value exposes every argument it was given"""
+    def T(msgid, domain=None, mapping=None, context=None, target_language=None, default=None):
+        log.append('T')
+        text = default if default is not None else msgid
+        if mapping:
+            for k in sorted(mapping):
+                text = text.replace('${%s}' % k, '{%s}' % mapping[k])
+        return '[%s|%s|%s|%s:%s]' % (domain, context, target_language, msgid if isinstance(msgid, str) else '?', text)
+    return T
 
 
 def make_iterable(kind, n):
@@ -117,6 +131,8 @@ class Plain:
 OBJ = [HasAttr(), HasItem(), {'k': 'dictitem'}, {'z': 1}, Plain(), ItemIndexError(), None, 3]
 KIND_N['obj'] = len(OBJ)
 KIND_N['maybe3'] = 3
+KIND_N['cls_s'] = 5
+KIND_N['cls_t'] = 3
 KIND_N['out3'] = 3
 OUT3 = [0, 7, 10]      # succeeds / ValueError / CustomExc
 HANDLER_CALLS = []
@@ -211,6 +227,23 @@ def _mutate(name):
         ns = dict(src_fn.__globals__)
         exec(code, ns)
         zp.MacroProgram.visit_text = ns['visit_text']
+    elif name == 'i18n_backup_by_value':
+        def visit_Domain(self, node):
+            backup = "__previous_i18n_domain_%s" % cc.mangle(node.name)
+            return cc.template("BACKUP = __i18n_domain", BACKUP=backup) + \
+                cc.template("__i18n_domain = NAME", NAME=cc.ast.Constant(node.name)) + \
+                self.visit(node.node) + cc.template("__i18n_domain = BACKUP", BACKUP=backup)
+        cc.Compiler.visit_Domain = visit_Domain
+    elif name == 'msgid_not_normalised':
+        import inspect
+        import textwrap
+        src_fn = cc.Compiler.visit_Translate
+        code = textwrap.dedent(inspect.getsource(src_fn)).replace(
+            "\"msgid = __re_whitespace(''.join(stream)).strip()\"", "\"msgid = ''.join(stream).strip()\"")
+        assert code != textwrap.dedent(inspect.getsource(src_fn))
+        ns = dict(src_fn.__globals__)
+        exec(code, ns)
+        cc.Compiler.visit_Translate = ns['visit_Translate']
     elif name == 'pipe_catches_zerodiv':
         from chameleon import tales
         tales.TalesExpr.exceptions = tales.TalesExpr.exceptions + (ArithmeticError,)
@@ -264,6 +297,8 @@ def collect_sources(node, acc):
             ex(node[k][1])
     if node.get('omit'):
         ex(node['omit'])
+    if node.get('i18n_target'):
+        acc.add(node['i18n_target'])
     for n, e in node.get('attributes', []):
         ex(e)
     for c in node.get('children') or []:
@@ -277,6 +312,8 @@ def prepare(cfg):
     text = tprog.serialise(prog)
     STATE['text'] = text
     opts = dict(cfg.get('options', {}))
+    if 'implicit_i18n_attributes' in opts:
+        opts['implicit_i18n_attributes'] = set(opts['implicit_i18n_attributes'])
     if cfg.get('handler'):
         opts['on_error_handler'] = lambda exc: HANDLER_CALLS.append(_base_name(exc))
     STATE['compile_error'] = None
@@ -338,6 +375,10 @@ def bind(ints, bools):
             b[name] = ints[slot]
         elif kind == 'cls':
             b[name] = pick(CLS, ints[slot])
+        elif kind == 'cls_s':
+            b[name] = pick(CLS_S, ints[slot])
+        elif kind == 'cls_t':
+            b[name] = pick(CLS_T, ints[slot] + (1 if CFG.get('no_default') else 0))
         elif kind == 'cls_nd':
             v = pick(CLS, ints[slot])
             b[name] = 5 if v is DEFAULT_MARKER else v
@@ -359,6 +400,10 @@ def run_engine(bindings):
     b['rec'] = rec
     b['show'] = show
     b['L'] = make_L(outs, vals, LOG)
+    if CFG.get('i18n'):
+        b['translate'] = make_T(LOG)
+        if CFG.get('target_language') is not None:
+            b['target_language'] = CFG['target_language']
     del HANDLER_CALLS[:]
     if STATE.get('compile_error'):
         return ('compile-error', STATE['compile_error'], [])
@@ -388,9 +433,13 @@ def run_ref(bindings, **kw):
     bindings = dict(bindings)
     outs = bindings.pop('__outs__', {})
     vals = bindings.pop('__vals__', {})
+    opts = dict(CFG.get('options') or {})
+    if CFG.get('target_language') is not None:
+        opts['target_language'] = CFG['target_language']
     ref = refsem.Ref(DEFAULT_MARKER, STATE['codes'],
-                     helpers={'rec': rrec, 'show': show, 'L': make_L(outs, vals, log)}, log=log,
-                     options=CFG.get('options'), **kw)
+                     helpers={'rec': rrec, 'show': show, 'L': make_L(outs, vals, log),
+                              '__translate__': make_T(log)}, log=log,
+                     options=opts, **kw)
     scope = refsem.RScope(bindings)
     out = []
     try:
